@@ -400,6 +400,21 @@ fn main() {
                     Err(_) => format!("ERR-CHANGED count {}->{} bytes {}->{}", before.0, after.0, hex(&before.1), hex(&after.1)),
                 }
             }
+            // emptyde <cell hex|-|null>: read an int column cell as MaybeEmpty<i32> through the public API: NULL-ERR / EMPTY / VALUE <n> / ERR
+            "emptyde" => {
+                use scylla_cql_core::deserialize::value::DeserializeValue;
+                use scylla_cql_core::deserialize::FrameSlice;
+                use scylla_cql_core::value::MaybeEmpty;
+                let typ = ColumnType::Native(NativeType::Int);
+                let b = bytes::Bytes::from(if a[1] == "-" || a[1] == "null" { Vec::new() } else { unhex(a[1]) });
+                let cell = if a[1] == "null" { None } else { Some(FrameSlice::new(&b)) };
+                if <MaybeEmpty<i32> as DeserializeValue>::type_check(&typ).is_err() { return "TYPECHECK-ERR".to_string(); }
+                match <MaybeEmpty<i32> as DeserializeValue>::deserialize(&typ, cell) {
+                    Ok(MaybeEmpty::Empty) => "EMPTY".to_string(),
+                    Ok(MaybeEmpty::Value(n)) => format!("VALUE {}", n),
+                    Err(_) => "ERR".to_string(),
+                }
+            }
             // emptyval <native type name|Collection|Vector|UserDefinedType|Tuple>: bind the special empty value through both public carriers
             "emptyval" => {
                 use scylla_cql_core::frame::response::result::{CollectionType, UserDefinedType};
